@@ -246,6 +246,36 @@ func selftest(verbose bool) error {
 		decodedStructs(u.Named(fx, "envDoc"), dec, 0)
 		expect("decoded-elem/"+tc.fn, len(nullableElementDerefs(f, dec)) > 0, tc.bad)
 	}
+	for _, tc := range []struct {
+		fn  string
+		bad bool
+	}{{"DecodeOk", false}, {"DecodeBad", true}} {
+		f := u.Func(fx, tc.fn)
+		if f == nil {
+			return fmt.Errorf("fixture %s missing", tc.fn)
+		}
+		expect("decode-target/"+tc.fn, len(nilableDecodeTargetDerefs(f)) > 0, tc.bad)
+	}
+	for _, tc := range []struct {
+		typ string
+		bad bool
+	}{{"store", false}, {"storeBad", true}} {
+		nt := u.Named(fx, tc.typ)
+		if nt == nil {
+			return fmt.Errorf("fixture %s missing", tc.typ)
+		}
+		expect("nilled-map/"+tc.typ, len(writesToNilledMaps(u, nt)) > 0, tc.bad)
+	}
+	for _, tc := range []struct {
+		fn  string
+		bad bool
+	}{{"DelOk", false}, {"DelBad", true}} {
+		f := u.Method(fx, "kc", tc.fn)
+		if f == nil {
+			return fmt.Errorf("fixture %s missing", tc.fn)
+		}
+		expect("field-method-call/"+tc.fn, len(callsOnFieldMethod(f, "keys", "Delete")) > 0, tc.bad)
+	}
 	if len(fails) > 0 {
 		return fmt.Errorf("%s", strings.Join(fails, "; "))
 	}
